@@ -167,6 +167,7 @@ class C03(common.Spec):
                     log.append([etype, data['state'], enc(data['value'])])
 
         obs = dict(class_ok=True, events=[], writable=writable)
+        persistent = len(case['events']) % 3 == 0
 
         def build():
             dest = Dest('dest')
@@ -188,6 +189,9 @@ class C03(common.Spec):
                 kw['on_exit_' + st] = (kw['on_exit_' + st], bad) if 'on_exit_' + st in kw else bad
             if ins['on_notrans']:
                 kw['on_notrans'] = edzed.Event(dest, 'on_notrans')
+            if persistent:
+                # the state is saved after every event (sync_state): event() answers as without persistence
+                kw['persistent'] = True
             fsm = cls('fsm', on_output=edzed.Event(dest, 'on_output'), **kw)
             holder['fsm'] = fsm
             return fsm
@@ -212,7 +216,7 @@ class C03(common.Spec):
                 obs['events'].append(snapshot(fsm, circuit, res))
 
         try:
-            res = drive.run_circuit(build, driver)
+            res = drive.run_circuit(build, driver, storage={} if persistent else None)
         except Exception as err:      # constructor error of the instance
             return dict(class_ok=False, class_err=enum_of(err), events=[])
         if res.driver_exc is not None:
